@@ -1,5 +1,5 @@
 SPECIFICATION Spec
 CONSTANTS
   MaxFields = 4
-INVARIANTS ObjCanonicalComplete ObjCanonicalTruncated ObjNeverOutOfBuffer ObjUnorderedIsError HdrValues HdrParent HdrNeverOutOfBuffer
+INVARIANTS ObjCanonicalComplete ObjCanonicalTruncated ObjNeverOutOfBuffer ObjUnorderedIsError HdrValues HdrParent HdrNeverOutOfBuffer NestedParentInsideSplit NestedParentCanonical HeadBufferSuffices
 CHECK_DEADLOCK FALSE
